@@ -5,7 +5,7 @@
 
 use crate::avro::Avro;
 use crate::data::Dict;
-use crate::drv::{real_db, scratch_xdg, Ctx, Opts};
+use crate::drv::{real_db, scratch_xdg, Ctx, Ev, Opts};
 use crate::par::par_for;
 use crate::phon::{Counters, Oracle, Walker, Which};
 use crate::report::{Evidence, Report, Samples};
@@ -211,6 +211,54 @@ pub fn run_which(report: &Report, thorough: bool, which: Which) -> Evidence {
             }
         });
         parts.insert("W5_emoji_names".into(), json!({"names": names.len(), "configurations": 2}));
+    }
+
+    // W6: the same clauses over a LEARNED store. For a few bases every candidate index is committed in turn (new store each time:
+    // the emoji of a name, the raw English text, an auto-correct entry, a dictionary word), then the base is typed again with a set of
+    // suffixes: what the engine derives from a learned choice (learned base + suffix) must still be a justified, correctly placed
+    // candidate - a learned choice may move the preselection, never the content of the list
+    if crate::par::part_enabled("W6") {
+        let bases = ["atm", "cool", "as", "ami", "help", "sot", "kotha", "rong", "a", "boi"];
+        let sfx = ["e", "er", "gulo", "ke", "ra", "te", "i", "o", "der", "ei"];
+        let nb = if thorough { bases.len() } else { 6 };
+        run("W6", &two, nb, &|w, j| {
+            let base = bases[j];
+            let files = std::collections::BTreeMap::new();
+            // number of candidates of the base on an empty store
+            let _ = crate::histgraph::fresh(&mut w.ctx, &files);
+            let mut n = 0;
+            for c in base.chars() {
+                if let Ok(r) = w.ctx.ch(c) {
+                    n = r.len();
+                }
+            }
+            for i in 0..n {
+                if crate::histgraph::fresh(&mut w.ctx, &files).is_err() {
+                    continue;
+                }
+                w.text.clear();
+                w.prefix.clear();
+                let mut ok = true;
+                for c in base.chars() {
+                    ok &= w.press(c);
+                }
+                if !ok || w.ctx.apply(&Ev::Commit(i)).is_err() {
+                    continue;
+                }
+                w.prefix = base.chars().map(Ev::ch).chain(std::iter::once(Ev::Commit(i))).collect();
+                w.text.clear();
+                w.type_word(base);
+                for s in &sfx {
+                    w.type_word(&format!("{}{}", base, s));
+                    if s.len() == 2 {
+                        w.type_word(&format!("({}{}).", base, s));
+                    }
+                }
+                w.prefix.clear();
+            }
+            let _ = crate::histgraph::fresh(&mut w.ctx, &files);
+        });
+        parts.insert("W6_learned_stores".into(), json!({"bases": nb, "suffixes": sfx.len(), "every_candidate_index_learned": true, "configurations": 2}));
     }
 
     let t = total.lock().unwrap();
